@@ -33,7 +33,7 @@ template <class T> int imp_stack_string(const std::string &s) { T o; if (!o.impo
 template <class T> int imp_ss_string(const std::string &s) { T o; if (!o.import(s)) return REFUSED; touch(o); for (size_t i = 0; i < o.size(); i++) g_sink += o.find_position(i) + o.find(i); return ACCEPTED; }
 inline int imp_mpz_stream(const std::string &s) {
 	mpz_t v; mpz_init(v); std::istringstream in(s); int n = 0;
-	try { while (in.good() && n < 64) { in >> v; n++; g_sink += mpz_sizeinbase(v, 2); } }
+	try { while (in.good() && in.peek() != EOF && n < 64) { in >> v; n++; g_sink += mpz_sizeinbase(v, 2); } }
 	catch (std::exception &) { mpz_clear(v); return STDEXC; }
 	mpz_clear(v); return n ? ACCEPTED : REFUSED;
 }
@@ -119,10 +119,11 @@ inline int pgp_subpacket_decode(const std::string &s) {
 	}
 	return good ? ACCEPTED : REFUSED;
 }
-inline int pgp_after_pub(TMCG_OpenPGP_Pubkey *pub) {
+inline int pgp_after_pub(TMCG_OpenPGP_Pubkey *pub, bool reduce = true) {
 	TMCG_OpenPGP_Keyring *ring = new TMCG_OpenPGP_Keyring();
 	bool a = pub->CheckSelfSignatures(ring, 0); bool b = a && pub->CheckSubkeys(ring, 0);
-	pub->Reduce(); g_sink += pub->Weak(0);
+	if (reduce) pub->Reduce();   // not on the relinked public part of a private key (its subkeys belong to the private subkeys)
+	g_sink += pub->Weak(0);
 	Oct ex; pub->Export(ex); g_sink += ex.size();
 	std::string fpr; PGP::FingerprintConvertPlain(pub->fingerprint, fpr); g_sink += fpr.size();
 	delete ring;
@@ -131,7 +132,7 @@ inline int pgp_after_pub(TMCG_OpenPGP_Pubkey *pub) {
 inline int pgp_pubkey_block(const std::string &s) { TMCG_OpenPGP_Pubkey *pub = nullptr; if (!PGP::PublicKeyBlockParse(str2oct(s), 0, pub)) return REFUSED; int r = pgp_after_pub(pub); delete pub; return r; }
 inline int pgp_pubkey_block_armored(const std::string &s) { TMCG_OpenPGP_Pubkey *pub = nullptr; if (!PGP::PublicKeyBlockParse(s, 0, pub)) return REFUSED; int r = pgp_after_pub(pub); delete pub; return r; }
 inline int pgp_after_prv(TMCG_OpenPGP_Prvkey *prv) {
-	prv->RelinkPublicSubkeys(); int r = pgp_after_pub(prv->pub); prv->RelinkPrivateSubkeys();
+	prv->RelinkPublicSubkeys(); int r = pgp_after_pub(prv->pub, false); prv->RelinkPrivateSubkeys();
 	g_sink += prv->Weak(0); Oct ex; prv->Export(ex); g_sink += ex.size();
 	return r;
 }
